@@ -279,11 +279,18 @@ def run_case(case, ctx):
         f = case['f']
         xs, hs, size = case['x'], case['h'], case['size']
         z = bic(xs[0], hs[0]) if size == 0 else bic(xs, hs)
+        z_then = (np.array(z.z1, copy=True), np.array(z.z2, copy=True))
         try:
             with np.errstate(all='ignore'):
                 res = wrap(getattr(np, f)(z) if case['via'] == 'ufunc' else getattr(z, f)())
         except Exception as exc:
             ctx.reject('raised', observed=repr(exc), function=f, base_point=xs)
+            return
+        # a function of a number does not change the number (the same Bicomplex is used again in f(z) * z, f(z) + z, ...)
+        ctx.count('argument_unchanged_asserted')
+        if np.asarray(z.z1).tobytes() != z_then[0].tobytes() or np.asarray(z.z2).tobytes() != z_then[1].tobytes():
+            ctx.reject('argument_modified_by_the_operation', observed=[np.ravel(z.z1)[:3], np.ravel(z.z2)[:3]],
+                       expected=[np.ravel(z_then[0])[:3], np.ravel(z_then[1])[:3]], function=f, via=case['via'])
             return
         if case['via'] == 'ufunc':
             ctx.count('via_ufunc')
@@ -337,6 +344,13 @@ def run_case(case, ctx):
         except Exception as exc:
             ctx.reject('raised', observed=repr(exc), function=op)
             return
+        ctx.count('argument_unchanged_asserted')
+        for operand, (xo, ho) in ((u, (x1, h1)),) + (((v, (x2, h2)),) if not case['scalar_other'] else ()):
+            fresh = bic(xo, ho)
+            if np.asarray(operand.z1).tobytes() != np.asarray(fresh.z1).tobytes() or np.asarray(operand.z2).tobytes() != np.asarray(fresh.z2).tobytes():
+                ctx.reject('argument_modified_by_the_operation', observed=[complex(np.ravel(operand.z1)[0]), complex(np.ravel(operand.z2)[0])],
+                           expected=[complex(np.ravel(fresh.z1)[0]), complex(np.ravel(fresh.z2)[0])], function=op)
+                return
         if op.startswith('r'):
             a1, b1, a2, b2 = m.mpc(x2), m.mpc(x2), a1, b1     # scalar is the left operand
         base = op[1:] if op.startswith('r') else op
